@@ -141,7 +141,16 @@ func genOp(t *rapid.T, first bool) Op {
 }
 
 func gen(t *rapid.T, _ *evid.Recorder) Case {
-	c := Case{Spec: dagx.Gen(t, dagx.GenOpts{MaxCommits: 12, MaxTags: 3, MaxEdits: 2})}
+	// one case in three is a tag-following scenario: the server has a tag chain whose
+	// outermost tag object carries a tag reference (the inner ones only by accident), a
+	// branch leads to what the chain tags, and the fetch that meets it mostly auto-follows
+	// tags under a wildcard refspec that does not name them
+	scenario := rapid.IntRange(0, 2).Draw(t, "tagscenario") == 0
+	o := dagx.GenOpts{MaxCommits: 12, MaxTags: 3, MaxEdits: 2, TagChains: 2}
+	if scenario {
+		o.MinTagChains = 1
+	}
+	c := Case{Spec: dagx.Gen(t, o)}
 	n := len(c.Spec.Commits)
 	c.K = rapid.IntRange(1, n).Draw(t, "k")
 	n1 := rapid.IntRange(1, 5).Draw(t, "nrefs1")
@@ -152,6 +161,27 @@ func gen(t *rapid.T, _ *evid.Recorder) Case {
 	for i := 0; i < n2; i++ {
 		c.Refs2 = append(c.Refs2, genPick(t, true))
 	}
+	scenPhase := 0
+	if tips := dagx.ChainTips(c.Spec); scenario && len(tips) > 0 {
+		tip := rapid.SampledFrom(tips).Draw(t, "tip")
+		picks := []RefPick{{Name: rapid.IntRange(nBranches, nBranches+3).Draw(t, "tipname"), Kind: 1, Idx: tip}}
+		if _, ci := dagx.ChainBase(c.Spec, tip); ci >= 0 && rapid.IntRange(0, 3).Draw(t, "tipbranch") > 0 {
+			// a branch at (or shortly after) the commit the chain ends in
+			d := rapid.SampledFrom([]int{0, 0, 1, 2}).Draw(t, "tipbranchdelta")
+			picks = append(picks, RefPick{Name: rapid.IntRange(0, nBranches-1).Draw(t, "tipbranchname"), Kind: 0, Idx: min(ci+d, n-1)})
+		}
+		switch rapid.IntRange(0, 3).Draw(t, "tipwhen") {
+		case 0: // there from the start, untouched afterwards
+			scenPhase = 1
+			c.Refs1 = append(c.Refs1, picks...)
+			for _, p := range picks {
+				c.Refs2 = append(c.Refs2, RefPick{Name: p.Name, Kind: -1})
+			}
+		default: // appears in the second state
+			scenPhase = 2
+			c.Refs2 = append(c.Refs2, picks...)
+		}
+	}
 	c.Head1 = rapid.IntRange(0, 3).Draw(t, "head1")
 	c.Head2 = rapid.IntRange(0, 3).Draw(t, "head2")
 	c.Pack = rapid.SampledFrom([]int{0, 0, 1, 2, 3}).Draw(t, "pack")
@@ -160,6 +190,26 @@ func gen(t *rapid.T, _ *evid.Recorder) Case {
 	c.Op1 = genOp(t, true)
 	c.Diverge = rapid.IntRange(0, 3).Draw(t, "diverge") == 0
 	c.Op2 = genOp(t, false)
+	if scenPhase != 0 {
+		op := &c.Op2
+		if scenPhase == 1 && c.Op1.Kind != opNone {
+			op = &c.Op1
+		}
+		if rapid.IntRange(0, 3).Draw(t, "scenfollow") > 0 {
+			op.Tags = tagFollow
+		}
+		if rapid.IntRange(0, 3).Draw(t, "scenspec") > 0 {
+			op.Spec = rapid.SampledFrom([]int{0, 0, 3, 7}).Draw(t, "scenspecset")
+		}
+		// include-tag is the server's business: lean towards go-git as the server and towards
+		// protocol v2 (the default of both implementations)
+		if rapid.IntRange(0, 1).Draw(t, "scenpair") == 0 {
+			c.Pairing = rapid.SampledFrom([]int{pGoGo, pGoGo, pGitGo}).Draw(t, "scenpairing")
+		}
+		if rapid.IntRange(0, 1).Draw(t, "scenproto") == 0 {
+			c.Proto = 2
+		}
+	}
 	return c
 }
 
@@ -400,6 +450,12 @@ const sigSecondParent = "C36/shallow-boundary-differs-from-git/gogit-server/non-
 // path that happens to reach it says, not the minimum: a commit that is a tip (or close to
 // one) is reported as shallow because another want reaches it at the depth limit.
 const sigEarlyCut = "C36/shallow-boundary-differs-from-git/gogit-server/commit-cut-although-nearer-than-depth-from-another-want"
+
+// sigTagWant: confirmed finding, also in getShallowCommits: it loads every want as a commit
+// (EncodedObject(CommitObject, want)) and skips the ones that fail, so a want that is an
+// annotated tag is never peeled: no boundary is computed below it, nothing is reported as
+// shallow and the complete history behind the tag is sent. git peels the wants.
+const sigTagWant = "C36/shallow-boundary-differs-from-git/gogit-server/want-is-annotated-tag-history-below-it-not-cut"
 
 // sigDepthTreeDiff: confirmed finding (the end-to-end face of C37's): go-git's v2 upload-pack
 // computes a depth-limited pack with revlist.Objects over a store whose shallow set is the new
@@ -659,9 +715,10 @@ func nonFirstParentsOnly(b *dagx.Built, a, g []string) bool {
 	return n > 0
 }
 
-// wantTips returns the commits (object indices) a depth fetch counts from: the
-// server references the refspecs (and the all-tags mode) match, peeled.
-func wantTips(b *dagx.Built, server map[string]string, specs []string, tags int) []int {
+// wantTips2 returns the commits (object indices) a depth fetch counts from: the
+// server references the refspecs (and the all-tags mode) match — those that are
+// commits, and those that are annotated tags, peeled.
+func wantTips2(b *dagx.Built, server map[string]string, specs []string, tags int) (direct, viaTag []int) {
 	var rs []refspec
 	for _, s := range specs {
 		rs = append(rs, parseSpec(s))
@@ -669,27 +726,37 @@ func wantTips(b *dagx.Built, server map[string]string, specs []string, tags int)
 	if tags == tagAll {
 		rs = append(rs, refspec{src: "refs/tags/*", dst: "refs/tags/*"})
 	}
-	var tips []int
 	for _, n := range sortedKeys(server) {
 		for _, r := range rs {
 			if _, ok := mapName(r.src, r.dst, n); ok {
 				x, ok := b.Index[server[n]]
+				peeled := false
 				for ok && b.Objs[x].Type == "tag" {
 					x = b.Objs[x].Kids[0]
+					peeled = true
 				}
 				if ok && b.Objs[x].Type == "commit" {
-					tips = append(tips, x)
+					if peeled {
+						viaTag = append(viaTag, x)
+					} else {
+						direct = append(direct, x)
+					}
 				}
 				break
 			}
 		}
 	}
-	return tips
+	return direct, viaTag
 }
 
-// cutNearerThanDepth returns a commit the client was told is shallow, that git
-// does not cut, and whose distance from a wanted tip (tip = 1) is below depth.
-func cutNearerThanDepth(b *dagx.Built, a, g []string, tips []int, depth int) string {
+// wantTips returns all of them.
+func wantTips(b *dagx.Built, server map[string]string, specs []string, tags int) []int {
+	d, v := wantTips2(b, server, specs, tags)
+	return append(d, v...)
+}
+
+// tipDist returns the distance of every commit (object index) reachable from tips, a tip being at 1.
+func tipDist(b *dagx.Built, tips []int) map[int]int {
 	dist := map[int]int{}
 	q := []int{}
 	for _, t := range tips {
@@ -708,6 +775,81 @@ func cutNearerThanDepth(b *dagx.Built, a, g []string, tips []int, depth int) str
 			}
 		}
 	}
+	return dist
+}
+
+// behindSkippedParent reports whether git's boundary g has commits the client's
+// boundary a lacks, and none of them can be reached from the wanted tips along the
+// parent edges getShallowCommits walks: its peek for "another parent?" consumes
+// every second parent (positions 2, 4, ...), so whatever lies only behind those is
+// never visited, never cut, and sent completely.
+func behindSkippedParent(b *dagx.Built, a, g []string, tips []int) bool {
+	reach := map[int]bool{}
+	st := append([]int(nil), tips...)
+	for len(st) > 0 {
+		x := st[len(st)-1]
+		st = st[:len(st)-1]
+		if reach[x] {
+			continue
+		}
+		reach[x] = true
+		ps := b.Objs[x].Kids[1:]
+		for j := 0; j < len(ps); j += 2 {
+			st = append(st, ps[j])
+		}
+	}
+	in := map[string]bool{}
+	for _, x := range a {
+		in[x] = true
+	}
+	n := 0
+	for _, x := range g {
+		if in[x] {
+			continue
+		}
+		i, ok := b.Index[x]
+		if !ok || reach[i] {
+			return false
+		}
+		n++
+	}
+	return n > 0
+}
+
+// cutOnlyBelowTagWants reports whether git's boundary g has commits the client's
+// boundary a lacks, and each of them sits exactly at the depth limit counted from a
+// wanted reference that is an annotated tag, out of reach (within the limit) of the
+// wanted references that are commits.
+func cutOnlyBelowTagWants(b *dagx.Built, a, g []string, direct, viaTag []int, depth int) bool {
+	if len(viaTag) == 0 {
+		return false
+	}
+	dc, dt := tipDist(b, direct), tipDist(b, viaTag)
+	in := map[string]bool{}
+	for _, x := range a {
+		in[x] = true
+	}
+	n := 0
+	for _, x := range g {
+		if in[x] {
+			continue
+		}
+		i, ok := b.Index[x]
+		if !ok || dt[i] != depth {
+			return false
+		}
+		if d, ok := dc[i]; ok && d <= depth {
+			return false
+		}
+		n++
+	}
+	return n > 0
+}
+
+// cutNearerThanDepth returns a commit the client was told is shallow, that git
+// does not cut, and whose distance from a wanted tip (tip = 1) is below depth.
+func cutNearerThanDepth(b *dagx.Built, a, g []string, tips []int, depth int) string {
+	dist := tipDist(b, tips)
 	ing := map[string]bool{}
 	for _, x := range g {
 		ing[x] = true
@@ -725,10 +867,75 @@ func cutNearerThanDepth(b *dagx.Built, a, g []string, tips []int, depth int) str
 	return ""
 }
 
+// tagShapeLabels records which tag shapes a successful operation met: what the
+// server's tag references point at (tag chains whose inner tag objects have no
+// reference of their own, tags of trees and blobs) and which of those the client
+// ended up with although no refspec named them (auto-following).
+func tagShapeLabels(b *dagx.Built, server, before, actual map[string]string, exp expectation, ph, tags, pairing, proto int, add func(string)) {
+	referenced := map[string]bool{}
+	for _, id := range server {
+		referenced[id] = true
+	}
+	tm := []string{"follow", "all", "none"}[tags]
+	for _, name := range sortedKeys(server) {
+		if !strings.HasPrefix(name, "refs/tags/") {
+			continue
+		}
+		x, ok := b.Index[server[name]]
+		if !ok || b.Objs[x].Type != "tag" {
+			continue
+		}
+		depth, innerUnref := 0, false
+		for b.Objs[x].Type == "tag" {
+			x = b.Objs[x].Kids[0]
+			depth++
+			if b.Objs[x].Type == "tag" && !referenced[b.Objs[x].ID] {
+				innerUnref = true
+			}
+		}
+		shape := "tag-of-" + b.Objs[x].Type
+		if depth >= 2 {
+			shape = "tag-chain"
+			if innerUnref {
+				shape = "tag-chain-inner-unreferenced"
+			}
+			if b.Objs[x].Type != "commit" {
+				shape += "-to-" + b.Objs[x].Type
+			}
+		}
+		add("server-tagref:" + shape)
+		_, lenient := exp.lenient[name]
+		switch {
+		case actual[name] != server[name] || before[name] == server[name]:
+		case lenient:
+			add(fmt.Sprintf("client-autofollowed:%s/%s/v%d", shape, pairName[pairing], proto))
+		default:
+			add(fmt.Sprintf("client-fetched-by-refspec:%s/tags=%s", shape, tm))
+		}
+	}
+}
+
 // visible lists the commits reachable from the references, honouring the shallow file.
 func visible(gitdir string) map[string]bool {
 	m := map[string]bool{}
 	out, _, code := gitx.Try(gitdir, "rev-list", "--all")
+	if code != 0 {
+		return m
+	}
+	for _, l := range strings.Fields(out) {
+		m[l] = true
+	}
+	return m
+}
+
+// visibleFrom lists the commits reachable from the given object ids (tags are
+// peeled, trees and blobs contribute nothing), honouring the shallow file.
+func visibleFrom(gitdir string, ids []string) map[string]bool {
+	m := map[string]bool{}
+	if len(ids) == 0 {
+		return m
+	}
+	out, _, code := gitx.TryIn(gitdir, []byte(strings.Join(ids, "\n")+"\n"), "rev-list", "--stdin")
 	if code != 0 {
 		return m
 	}
@@ -817,6 +1024,13 @@ func check(c Case) evid.Result {
 		res.Labels = append(res.Labels, "dag-clock-skew")
 	}
 
+	labelled := map[string]bool{}
+	addLabel := func(l string) {
+		if !labelled[l] {
+			labelled[l] = true
+			res.Labels = append(res.Labels, l)
+		}
+	}
 	phase := func(ph int, op Op, st state) *evid.Failure {
 		before := map[string]string{}
 		if _, err := os.Stat(filepath.Join(sub, "HEAD")); err == nil {
@@ -907,6 +1121,7 @@ func check(c Case) evid.Result {
 			tm := []string{"follow", "all", "none"}[op.Tags]
 			return evid.Failf("C36/"+kind+"/"+shape+"/tags="+tm, "phase %d %s (specs %v, tags=%s, prune=%v, force=%v) succeeded but %s; server refs %v; client refs before %v", ph, opn, specs, tm, op.Prune, op.Force, msg, st.refs, before)
 		}
+		tagShapeLabels(b, st.refs, before, actual, exp, ph, op.Tags, c.Pairing, c.Proto, addLabel)
 		// shallow boundary against the git twin
 		if useTwin && tr.ok {
 			a, g := effShallow(b, dagx.Shallow(sub)), effShallow(b, dagx.Shallow(twin))
@@ -915,7 +1130,17 @@ func check(c Case) evid.Result {
 				// the purposes of the property when the client sees everything the git twin sees and
 				// whatever it sees beyond that it already saw before this operation (git re-marks a
 				// deeper existing history as shallow; keeping it is not a loss).
-				vs, vt := visible(sub), visible(twin)
+				// Seen from the references both clients hold with the same value: which tags were
+				// auto-followed is up to each client (and to whether the server offers include-tag),
+				// and history that only a tag the other side lacks leads to says nothing about the boundary.
+				tw := dagx.ListRefs(twin)
+				var common []string
+				for _, name := range sortedKeys(actual) {
+					if tw[name] == actual[name] {
+						common = append(common, actual[name])
+					}
+				}
+				vs, vt := visibleFrom(sub, common), visibleFrom(twin, common)
 				bad := ""
 				for id := range vt {
 					if !vs[id] {
@@ -935,8 +1160,13 @@ func check(c Case) evid.Result {
 					if x := cutNearerThanDepth(b, a, g, wantTips(b, st.refs, specs, tags), op.Depth); x != "" {
 						return evid.Failf(sigEarlyCut, "phase %d %s depth=%d from go-git's upload-pack (%s, v%d): the client was told %v is shallow; git cuts at %v; %s is at distance < %d from a wanted tip: %s", ph, opn, op.Depth, pairName[c.Pairing], c.Proto, a, g, x, op.Depth, bad)
 					}
-					if nonFirstParentsOnly(b, a, g) {
-						return evid.Failf(sigSecondParent, "phase %d %s depth=%d from go-git's upload-pack (%s, v%d): git cuts at %v, the client was told %v; every commit git cuts and go-git does not is a second-or-later parent of a merge, and the history behind it was sent: %s", ph, opn, op.Depth, pairName[c.Pairing], c.Proto, g, a, bad)
+					if nonFirstParentsOnly(b, a, g) || behindSkippedParent(b, a, g, wantTips(b, st.refs, specs, tags)) {
+						return evid.Failf(sigSecondParent, "phase %d %s depth=%d from go-git's upload-pack (%s, v%d): git cuts at %v, the client was told %v; every commit git cuts and go-git does not is a second-or-later parent of a merge or lies only behind one (never visited), and the history behind it was sent: %s", ph, opn, op.Depth, pairName[c.Pairing], c.Proto, g, a, bad)
+					}
+				}
+				if bad != "" && c.Pairing != pGoGit && op.Depth > 0 {
+					if d, v := wantTips2(b, st.refs, specs, tags); cutOnlyBelowTagWants(b, a, g, d, v, op.Depth) {
+						return evid.Failf(sigTagWant, "phase %d %s depth=%d from go-git's upload-pack (%s, v%d): git cuts at %v, the client was told %v; every commit git cuts and go-git does not is at distance %d from a wanted annotated tag (and further than that from the wanted commits): %s", ph, opn, op.Depth, pairName[c.Pairing], c.Proto, g, a, op.Depth, bad)
 					}
 				}
 				if bad != "" {
